@@ -294,7 +294,9 @@ theorem reduce_eq (zero : β) (f : β → α → β) (init : β) (l : List α) :
   Helpers.reduce_eq zero l init f
 
 theorem repeat_eq (zero a : α) (n : Int) :
-    XSlices.repeat_ zero a n = if n < 0 then none else some (List.replicate n.toNat a) := Helpers.repeatN_eq zero a n
+    XSlices.repeat_ zero a n =
+      if n < 0 then none else if n > Stdlib.allocLimit then none else some (List.replicate n.toNat a) :=
+  Helpers.repeatN_eq zero a n
 
 theorem equal_eq [DecidableEq α] (a b : List α) : XSlices.equal a b = decide (a = b) := by
   simp [XSlices.equal, Helpers.equal, Gen.Helpers.equalW, Stdlib.equal, items_ofList]
